@@ -1,5 +1,5 @@
 (* templates: common ta_io *)
-(* C01: input  incl <T A> <T B> ||| V v0..v7 S <T sanA> <T sanB> n I <T A> <T B>
+(* C01: input  incl <T A> <T B> ||| V v0..v7 R r0 r2 r4 r5 S <T sanA> <T sanB> n I <T A> <T B>
    output OK | FAIL <gates> ; flags *)
 open Ex_c01
 open Common_c01
@@ -15,6 +15,7 @@ let () = each_line (fun l ->
   | Some "V" ->
     expect t "V";
     let vs = times 8 (fun () -> word t) in
+    expect t "R"; let rs = times 4 (fun () -> word t) in
     expect t "S"; let sa = read_ta t in let sb = read_ta t in let n = n_of_int (num t) in
     expect t "I"; let ia = read_ta t in let ib = read_ta t in
     let truth = incl_dec a b in
@@ -25,6 +26,9 @@ let () = each_line (fun l ->
     List.iteri (fun i v ->
       let ok = (match v with "0" -> gate_verdict a b false | "1" -> gate_verdict a b true | "T" -> true (* time limit: inconclusive *) | _ -> false) in
       if not ok then fails := names.(i) :: !fails) vs;
+    List.iteri (fun i v ->
+      let ok = (match v with "0" -> gate_verdict a b false | "1" -> gate_verdict a b true | "T" -> true | _ -> false) in
+      if not ok then fails := ("raw_" ^ names.([| 0; 2; 4; 5 |].(i))) :: !fails) rs;
     if not (prepared_lang a b sa sb) then fails := "sanitize_lang" :: !fails;
     if not (ta_same a ia && ta_same b ib) then fails := "operand_changed" :: !fails;
     let drift = (if prepared_shape sa sb n then [] else ["sanitize_shape"]) @ (if up_ac a b = truth then [] else ["antichain_model"])
@@ -33,6 +37,7 @@ let () = each_line (fun l ->
     ^ (if drift = [] then "" else " DRIFT " ^ String.concat "," drift)
     ^ (if truth then " included" else " notincluded")
     ^ (if is_empty a then " Aempty" else " Anonempty") ^ (if is_empty b then " Bempty" else " Bnonempty")
-    ^ (if List.mem "T" vs then " timeout" else "")
+    ^ (if List.mem "T" vs || List.mem "T" rs then " timeout" else "")
+    ^ (if a.rules <> [] && a.rules = b.rules then " shared_table" else "")
     ^ (if small then (match down_model with None -> " down_model_out_of_fuel" | Some _ -> " down_model_run") else "")
   | _ -> "FAIL exception " ^ o)
